@@ -342,6 +342,8 @@ class Lib:
         if isinstance(base, EntryRef):
             return self.entry_get(run, base, attr)
         if obj is not None:
+            if isinstance(obj, IMapO):
+                return LibRef('idict.' + attr, base)
             if isinstance(obj, MapO):
                 return LibRef('dict.' + attr, base)
             if isinstance(obj, SeqO):
@@ -386,6 +388,15 @@ class Lib:
     def getitem(self, run, base, key):
         if isinstance(base, Ref):
             o = run.deref(base)
+            if isinstance(o, IMapO) and isinstance(key, Num):
+                k = intterm(key)
+                if not run.spec_mode:
+                    run.emit('safe.key', z3.And(0 <= k, k < o.n), 'key of an int-keyed dict is present')
+                if o.vkind == 'hashtab':
+                    return HashTabV(base.loc, k)
+                if o.vkind == 'mat':
+                    return MatV(o.vals[k])
+                raise Unsupported('int-keyed dict of kind %s' % o.vkind)
             if isinstance(o, MapO):
                 return self.map_get(run, base, key)
             if isinstance(o, ListO):
@@ -415,6 +426,10 @@ class Lib:
         if isinstance(base, TupleV):
             if isinstance(key, Num) and key.concrete() is not None:
                 return base.items[int(key.concrete())]
+        if isinstance(base, HashTabV) and isinstance(key, (Num, BoolV)):
+            # defaultdict(list): a missing key yields (and stores) the empty list -- the total-function view
+            m = run.st.heap[base.loc]
+            return SeqV('I', m.vals[base.k][real(key)], True)
         if isinstance(base, SeqV):
             return self.seq_getitem(run, base, key)
         if isinstance(base, MatV):
@@ -500,8 +515,25 @@ class Lib:
 
     # ---------------------------------------------------------------------------------- setitem
     def setitem(self, run, base, key, v):
+        if isinstance(base, HashTabV) and isinstance(key, (Num, BoolV)):
+            m = run.st.heap[base.loc]
+            sv = self.as_seq(run, v)
+            if sv is None or sv.kind != 'I':
+                if isinstance(v, Ref) and isinstance(run.deref(v), ListO) and not run.deref(v).items:
+                    sv = SeqV('I', F('iempty', ISeq), True)
+                else:
+                    raise Unsupported('hash-table bucket assigned a non-index list')
+            inner = z3.Store(m.vals[base.k], real(key), sv.term)
+            run.set_heap(base.loc, IMapO(m.n, z3.Store(m.vals, base.k, inner), m.vkind))
+            return None
         if isinstance(base, Ref):
             o = run.deref(base)
+            if isinstance(o, IMapO) and isinstance(key, Num):
+                k = intterm(key)
+                if o.vkind == 'mat' and isinstance(v, MatV):
+                    run.set_heap(base.loc, IMapO(o.n, z3.Store(o.vals, k, v.term), o.vkind))
+                    return None
+                raise Unsupported('assignment into an int-keyed dict of kind %s' % o.vkind)
             if isinstance(o, MapO):
                 self.map_set(run, base, key, v)
                 return None
